@@ -353,12 +353,13 @@ def find_closest_lower_equal_element_indices_to_values(x: Union[np.ndarray, list
     """
     indices = np.zeros(len(lookup), dtype=np.int64)
 
-    x_it = iter(x)
+    # compare Python scalars: a float32 element against a Python float query is compared in float32 by NumPy
+    x_it = iter(np.ravel(x).tolist())
     x_val = next(x_it)
     x_next_val = next(x_it, None)
     x_idx = 0
 
-    lookup_it = iter(lookup)
+    lookup_it = iter(np.ravel(lookup).tolist())
     lookup_val = next(lookup_it)
     lookup_idx = 0
 
@@ -416,12 +417,13 @@ def find_closest_higher_equal_element_indices_to_values(x: Union[np.ndarray, lis
     """
     indices = np.zeros(len(lookup), dtype=np.int64)
 
-    x_it = iter(x)
+    # compare Python scalars: a float32 element against a Python float query is compared in float32 by NumPy
+    x_it = iter(np.ravel(x).tolist())
     x_val = next(x_it)
     x_next_val = next(x_it, None)
     x_idx = 0
 
-    lookup_it = iter(lookup)
+    lookup_it = iter(np.ravel(lookup).tolist())
     lookup_val = next(lookup_it)
     lookup_idx = 0
 
@@ -478,12 +480,12 @@ def find_closest_lower_or_higher_element_indices_to_values(x: Union[np.ndarray, 
     indices = np.zeros(len(lookup), dtype=np.int64)
 
     # iterate over Python scalars: distances of fixed-width integers overflow (int8 50 - (-100))
-    x_it = iter(np.asarray(x).tolist())
+    x_it = iter(np.ravel(x).tolist())
     x_val = next(x_it)
     x_next_val = next(x_it, None)
     x_idx = 0
 
-    lookup_it = iter(np.asarray(lookup).tolist())
+    lookup_it = iter(np.ravel(lookup).tolist())
     lookup_val = next(lookup_it)
     lookup_idx = 0
 
